@@ -559,6 +559,30 @@ static void section_interp(const Args &A) {
 		mpz_clear(t);
 		interp_case(std::vector<long>(), std::vector<long>(), q, true, "random", &as, &bs);
 	}
+	// leading points that already lie on the interpolant of their predecessors (zero correction term in round k: b[0] = 0,
+	// b[1] = b[0], three collinear points, ... ), followed by points that do not: every round must still update the
+	// auxiliary product polynomial even when it has nothing to add to the result
+	for (unsigned i = 0; i < (A.thorough() ? 1500u : 200u); i++) {
+		unsigned bits = 3 + gen().below(30);
+		gen_bits(q, bits); mpz_setbit(q, bits - 1); mpz_nextprime(q, q);
+		size_t m = 2 + gen().below(7);
+		if (mpz_cmp_ui(q, m) <= 0) m = mpz_get_ui(q) > 2 ? mpz_get_ui(q) - 1 : 2;   // need m distinct abscissae
+		long deg = (long)gen().below(m - 1) - 1;                 // -1: the zero polynomial (b[0] = 0), 0: constant (b[1] = b[0]), 1: collinear
+		size_t onpoly = (size_t)(deg + 2) + gen().below(m - (deg + 2) + 1);     // at least one zero correction
+		if (onpoly >= m && m > (size_t)(deg + 2) && gen().below(4)) onpoly = m - 1;    // usually followed by an off-polynomial point
+		std::vector<std::string> as, bs; mpz_t t, acc; mpz_init(t); mpz_init(acc);
+		std::vector<std::string> coef; for (long c = 0; c <= deg; c++) { gen_below(t, q); if (c == deg && mpz_sgn(t) == 0) mpz_set_ui(t, 1); coef.push_back(hx(t)); }
+		std::vector<unsigned long> used;
+		for (size_t k = 0; k < m; k++) {
+			// distinct abscissae (small q: rejection sampling)
+			for (;;) { gen_below(t, q); bool dup = false; for (auto &x : as) if (x == hx(t)) dup = true; if (!dup) break; }
+			as.push_back(hx(t));
+			if (k < onpoly) { mpz_set_ui(acc, 0); for (long c = deg; c >= 0; c--) { mpz_t cc; mpz_init(cc); mpz_set_str(cc, coef[c].c_str(), 16); mpz_mul(acc, acc, t); mpz_add(acc, acc, cc); mpz_mod(acc, acc, q); mpz_clear(cc); } bs.push_back(hx(acc)); }
+			else { gen_below(acc, q); bs.push_back(hx(acc)); }
+		}
+		mpz_clear(t); mpz_clear(acc);
+		interp_case(std::vector<long>(), std::vector<long>(), q, true, "onpoly", &as, &bs);
+	}
 	// q not prime (model comparison only), q = 0 and m = 0 (throw)
 	for (unsigned i = 0; i < (A.thorough() ? 400u : 60u); i++) {
 		mpz_set_ui(q, 1 + gen().below(40));
@@ -623,6 +647,47 @@ static void section_prime(const Args &A) {
 				if (!why.empty()) propfail(prefix ? "prime-lprime_prefix" : "prime-lprime", std::string("lprime(") + hx(l[0]) + "," + hx(l[1]) + ") gave p=" + hx(p) + " q=" + hx(q) + " k=" + hx(k) + ": " + why);
 			}
 		}
+	// ---- acceptance logic against the Coq model (PrimeModel.v): replay the candidates the generators draw --------------
+	{
+		mpz_t qraw, qc, kc, t2; mpz_init(qraw); mpz_init(qc); mpz_init(kc); mpz_init(t2);
+		struct { const char *name; int kind; } ST[] = { { "sprime", 0 }, { "smprime", 0 }, { "sprime2g", 1 }, { "sprime3mod4", 2 } };
+		static const unsigned long SQ[] = { 16, 24, 33, 64, 100, 160 };
+		for (unsigned r = 0; r < R * 2; r++) for (auto &g : ST) for (unsigned long qs : SQ) {
+			if (!A.thorough() && qs > 100) continue;
+			uint64_t sd = gen().next();
+			reseed_lib(sd);
+			unsigned long qsize = qs;                      // size handed to tmcg_mpz_sprime_test
+			if (g.kind == 2) { tmcg_mpz_sprime3mod4(p, qs, TMCG_MR_ITERATIONS); qsize = qs - 1; mpz_sub_ui(q, p, 1); mpz_fdiv_q_2exp(q, q, 1); }
+			else if (g.kind == 1) tmcg_mpz_sprime2g(p, q, qs, TMCG_MR_ITERATIONS);
+			else if (g.name[1] == 'm') tmcg_mpz_smprime(p, q, qs, TMCG_MR_ITERATIONS);
+			else tmcg_mpz_sprime(p, q, qs, TMCG_MR_ITERATIONS);
+			reseed_lib(sd);
+			do tmcg_mpz_srandomb(qraw, qsize); while (mpz_sizeinbase(qraw, 2) < qsize);      // the start value the search drew
+			Rec("pr_sprime").d(g.kind).u(qsize).z(qraw).z(q).z(p).t("1");
+		}
+		static const unsigned long LQ[][2] = { {48, 16}, {64, 24}, {128, 40}, {96, 47}, {256, 160}, {512, 160} };
+		for (unsigned r = 0; r < R * 2; r++) for (auto &l : LQ) {
+			if (!A.thorough() && l[0] > 256) continue;
+			uint64_t sd = gen().next();
+			reseed_lib(sd);
+			tmcg_mpz_lprime(p, q, k, l[0], l[1], TMCG_MR_ITERATIONS);
+			reseed_lib(sd);
+			std::string qcs, kcs;
+			do { tmcg_mpz_wrandomb(qc, l[1]); qcs += (qcs.empty() ? "" : ",") + hx(qc); }
+			while ((mpz_sizeinbase(qc, 2) < l[1]) || !mpz_probab_prime_p(qc, TMCG_MR_ITERATIONS));
+			bool synced = mpz_cmp(qc, q) == 0;
+			unsigned guard = 0;
+			while (synced && guard++ < 100000) {
+				do { tmcg_mpz_wrandomb(kc, l[0] - l[1]); kcs += (kcs.empty() ? "" : ",") + hx(kc); } while (mpz_sizeinbase(kc, 2) < (l[0] - l[1]));
+				if (mpz_odd_p(kc)) mpz_add_ui(kc, kc, 1);
+				if (mpz_cmp(kc, k) == 0) break;                 // the cofactor the generator returned
+			}
+			if (synced && guard < 100000) Rec("pr_lprime").u(l[0]).u(l[1]).t(qcs).t(kcs).t(hx(p) + "," + hx(q) + "," + hx(k));
+			else fprintf(stderr, "c09: replay of the lprime draws lost synchronisation (harness, not a finding)\n");
+		}
+		Rec("pr_lprime").u(16).u(16).t("_").t("_").t("throw");
+		mpz_clear(qraw); mpz_clear(qc); mpz_clear(kc); mpz_clear(t2);
+	}
 	// qsize >= psize must throw
 	try { tmcg_mpz_lprime(p, q, k, 16, 16, 10); propfail("prime-lprime-sizes", "lprime(16,16) did not throw"); } catch (std::invalid_argument &) {}
 	// plain odd primes
